@@ -1000,224 +1000,3 @@ Definition lift_run {A} (o : option A) : res A := match o with Some a => Ok a | 
 
 (* ------------------------------------------------------------------------------------------ *)
 (** * Tests on the 8-bit instance: the arena observers against the tree model *)
-From PT Require Import PrefixN.
-
-Module Arena3Test.
-Import ArenaTest Arena2Test.
-Open Scope N_scope.
-
-Definition MCMP := PrefixN.mcmp W.
-Definition tab (h : list (aop2 P N)) : list (anode P N) := tbl (am_of (arun2 h)).
-Definition tre (h : list (aop2 P N)) : tree P N := root (trun2 h).
-
-(** [hr]: two value-less branching nodes (1/1 in slot 4, 10/2 in slot 2) above 100/3, 101/3, 11/2;
-    [ha]: valued inner nodes, a value-less leaf left by [remove_keep_tree], the root valued;
-    [hb]: a second map for the binary operations, with keys equal to, above, below and beside
-    those of [ha]; [hz]: the empty map *)
-Definition ha : list (aop2 P N) :=
-  [I (p 128 1) 2; I (p 128 3) 1; I (p 160 3) 3; I (p 192 2) 5; I (p 64 2) 7; I (p 0 0) 9;
-   I (p 96 3) 8; K (p 160 3); I (p 130 8) 4; I (p 131 8) 6].
-Definition hb : list (aop2 P N) :=
-  [I (p 128 2) 12; I (p 160 3) 13; I (p 128 4) 14; I (p 192 3) 15; I (p 64 3) 17; I (p 32 3) 18;
-   I (p 130 7) 16; R (p 64 3); I (p 224 4) 19; I (p 96 3) 20].
-Definition hz : list (aop2 P N) := [].
-Example ha_shape :
-  tre ha = Node 0 ZERO (Some 9)
-             (Node 6 (p 64 2) (Some 7) Leaf (Node 7 (p 96 3) (Some 8) Leaf Leaf))
-             (Node 1 (p 128 1) (Some 2)
-                (Node 3 (p 128 2) None
-                   (Node 2 (p 128 3) (Some 1)
-                      (Node 9 (p 130 7) None (Node 8 (p 130 8) (Some 4) Leaf Leaf) (Node 10 (p 131 8) (Some 6) Leaf Leaf))
-                      Leaf)
-                   (Node 4 (p 160 3) None Leaf Leaf))
-                (Node 5 (p 192 2) (Some 5) Leaf Leaf)).
-Proof. vm_compute. reflexivity. Qed.
-
-(** the queries: every key of the maps, keys above / below / beside them, on edges (virtual
-    views), at the root, host-length keys *)
-Definition qs : list P :=
-  [p 0 0; p 0 1; p 128 1; p 128 2; p 128 3; p 160 3; p 192 2; p 64 2; p 96 3; p 130 8; p 131 8;
-   p 130 7; p 128 4; p 192 3; p 64 3; p 32 3; p 224 4; p 129 8; p 161 8; p 200 5; p 224 3; p 176 4;
-   p 144 4; p 128 5; p 128 6; p 130 6; p 64 1; p 96 4; p 255 8; p 0 8; p 192 1; p 160 2].
-Definition hs : list (list (aop2 P N)) := [hr; ha; hb; hz].
-
-(** ** the lookups of src/map/mod.rs *)
-Example get_key_value_ok :
-  map (fun h => map (a_get_key_value P N PEQ CON BIT LEN (am_of (arun2 h))) qs) hs
-  = map (fun h => map (fun q => Ok (get_key_value P N PEQ CON BIT LEN (tre h) q)) qs) hs.
-Proof. vm_compute. reflexivity. Qed.
-Example contains_key_ok :
-  map (fun h => map (a_contains_key P N PEQ CON BIT LEN (am_of (arun2 h))) qs) hs
-  = map (fun h => map (fun q => Ok (contains_key P N PEQ CON BIT LEN (tre h) q)) qs) hs.
-Proof. vm_compute. reflexivity. Qed.
-Example get_lpm_prefix_ok :
-  map (fun h => map (a_get_lpm_prefix P N PEQ CON BIT LEN (am_of (arun2 h))) qs) hs
-  = map (fun h => map (fun q => Ok (get_lpm_prefix P N PEQ CON BIT LEN (tre h) q)) qs) hs.
-Proof. vm_compute. reflexivity. Qed.
-Example get_lpm_mut_ok :
-  map (fun h => map (a_get_lpm_mut P N PEQ CON BIT LEN (am_of (arun2 h))) qs) hs
-  = map (fun h => map (fun q => Ok (get_lpm_mut P N PEQ CON BIT LEN (tre h) q)) qs) hs.
-Proof. vm_compute. reflexivity. Qed.
-Example get_spm_ok :
-  map (fun h => map (a_get_spm P N PEQ CON BIT LEN (am_of (arun2 h))) qs) hs
-  = map (fun h => map (fun q => Ok (get_spm P N PEQ CON BIT LEN (tre h) q)) qs) hs.
-Proof. vm_compute. reflexivity. Qed.
-Example get_spm_prefix_ok :
-  map (fun h => map (a_get_spm_prefix P N PEQ CON BIT LEN (am_of (arun2 h))) qs) hs
-  = map (fun h => map (fun q => Ok (get_spm_prefix P N PEQ CON BIT LEN (tre h) q)) qs) hs.
-Proof. vm_compute. reflexivity. Qed.
-(** the index [get_lpm_mut] returns: the valued node 1/1 (slot 1) is the best match of 1010/4 in
-    [ha] (101/3 in slot 4 lost its value); no valued node covers it in [hr] *)
-Example get_lpm_mut_index :
-  (a_get_lpm_mut P N PEQ CON BIT LEN (am_of (arun2 ha)) (p 160 4),
-   a_get_lpm_mut P N PEQ CON BIT LEN (am_of (arun2 hr)) (p 64 2))
-  = (Ok (Some (1, p 128 1, 2)), Ok None).
-Proof. vm_compute. reflexivity. Qed.
-
-(** ** src/map/iter.rs *)
-Example children_start_ok :
-  map (fun h => map (a_children_start P N PEQ CON BIT LEN (am_of (arun2 h))) qs) hs
-  = map (fun h => map (fun q => Ok (map tid (children_start P N PEQ CON BIT LEN (tre h) q))) qs) hs.
-Proof. vm_compute. reflexivity. Qed.
-Example children_ok :
-  map (fun h => map (a_children P N PEQ CON BIT LEN (am_of (arun2 h))) qs) hs
-  = map (fun h => map (fun q => Ok (map (fun e => (snd (fst e), snd e)) (children P N PEQ CON BIT LEN (tre h) q))) qs) hs.
-Proof. vm_compute. reflexivity. Qed.
-(** [Cover]: every call of [next], state by state (the state [Some i] is the slot of [CAt t]) *)
-Definition cst_of (st : cstate P N) : option N :=
-  match st with CStart => None | CAt t => Some (tid t) end.
-Fixpoint a_cover_trace (n : nat) (tb : list (anode P N)) (st : option N) (q : P)
-  : list (res (option (P * N) * option N)) :=
-  match n with
-  | O => []
-  | S n' =>
-    let r := a_cover_next P N PEQ CON BIT LEN (S (length tb)) tb st q in
-    r :: match r with Ok (_, st') => a_cover_trace n' tb st' q | _ => [] end
-  end.
-Fixpoint t_cover_trace (n : nat) (T : tree P N) (st : cstate P N) (q : P)
-  : list (res (option (P * N) * option N)) :=
-  match n with
-  | O => []
-  | S n' =>
-    let '(o, st') := cover_next P N PEQ CON BIT LEN T st q in
-    Ok (o, cst_of st') :: t_cover_trace n' T st' q
-  end.
-Example cover_next_ok :
-  map (fun h => map (a_cover_trace 6 (tab h) None) qs) hs
-  = map (fun h => map (t_cover_trace 6 (tre h) CStart) qs) hs.
-Proof. vm_compute. reflexivity. Qed.
-Example cover_ok :
-  map (fun h => map (a_cover P N PEQ CON BIT LEN (am_of (arun2 h))) qs) hs
-  = map (fun h => map (fun q => Ok (cover_walk P N PEQ CON BIT LEN (tre h) q)) qs) hs.
-Proof. vm_compute. reflexivity. Qed.
-
-(** ** [TrieView]: every observer at every view [find] yields from the root, virtual ones included *)
-Definition views_of (h : list (aop2 P N)) : list (view P N) :=
-  VNode (tre h) ::
-  flat_map (fun q => match v_find P N PEQ CON BIT LEN (VNode (tre h)) q with Some v => [v] | None => [] end) qs.
-Definition ol (o : option (view P N)) : res (option (vloc P)) := Ok (option_map loc_of o).
-Definition vobs_a (tb : list (anode P N)) (l : vloc P) :=
-  (map (a_v_find P N PEQ CON BIT LEN LCP tb l) qs, map (a_v_find_exact P N PEQ CON BIT LEN tb l) qs,
-   map (a_v_find_lpm P N PEQ CON BIT LEN tb l) qs, a_v_left P N BIT LEN tb l, a_v_right P N BIT LEN tb l,
-   a_v_prefix P N tb l, a_v_value P N tb l, a_v_prefix_value P N tb l).
-Definition vobs_t (v : view P N) :=
-  (map (fun q => ol (v_find P N PEQ CON BIT LEN v q)) qs, map (fun q => ol (v_find_exact P N PEQ CON BIT LEN v q)) qs,
-   map (fun q => ol (v_find_lpm P N PEQ CON BIT LEN v q)) qs, ol (v_left P N BIT LEN ZERO v), ol (v_right P N BIT LEN ZERO v),
-   Ok (A := P) (v_prefix P N ZERO v), Ok (A := option N) (v_value v), Ok (A := option (P * N)) (v_prefix_value v)).
-Example view_observers_ok :
-  map (fun h => map (fun v => vobs_a (tab h) (loc_of v)) (views_of h)) hs
-  = map (fun h => map vobs_t (views_of h)) hs.
-Proof. vm_compute. reflexivity. Qed.
-(** among them: a virtual view (10000/5 on the edge 100/3 -> 1000001/7 of [ha]: real node in
-    slot 9), a view at a value-less branching node of [hr], a query that covers the view's node
-    (virtual at its own slot) *)
-Example view_samples :
-  (a_v_find P N PEQ CON BIT LEN LCP (tab ha) (LNode 0) (p 128 5),
-   a_v_find P N PEQ CON BIT LEN LCP (tab hr) (LNode 0) (p 128 2),
-   a_v_find P N PEQ CON BIT LEN LCP (tab hr) (LNode 2) (p 128 1),
-   a_v_left P N BIT LEN (tab ha) (LVirt (p 128 5) 9), a_v_right P N BIT LEN (tab ha) (LVirt (p 128 5) 9),
-   a_v_value P N (tab hr) (LNode 2), a_v_prefix P N (tab ha) (LVirt (p 128 5) 9))
-  = (Ok (Some (LVirt (p 128 5) 9)), Ok (Some (LNode 2)), Ok (Some (LVirt (p 128 1) 2)),
-     Ok (Some (LNode 9)), Ok None, Ok None, Ok (p 128 5)).
-Proof. vm_compute. reflexivity. Qed.
-
-(** ** [TrieViewMut] *)
-Definition vmuts_of (h : list (aop2 P N)) : list (vmut P) :=
-  vm_root P ::
-  flat_map (fun q => match vm_find P N PEQ CON BIT LEN (tre h) (vm_root P) q with Some m => [m] | None => [] end) qs.
-Definition oml (T : tree P N) (o : option (vmut P)) : res (option (vloc P)) := Ok (option_map (mloc_of T) o).
-Definition mobs_a (tb : list (anode P N)) (l : vloc P) :=
-  (map (a_vm_find P N PEQ CON BIT LEN LCP tb l) qs, map (a_vm_find_exact P N PEQ CON BIT LEN tb l) qs,
-   map (a_vm_find_lpm P N PEQ CON BIT LEN tb l) qs, a_vm_left P N BIT LEN tb l, a_vm_right P N BIT LEN tb l,
-   a_vm_has_left P N BIT LEN tb l, a_vm_has_right P N BIT LEN tb l, a_vm_split P N BIT LEN tb l,
-   a_vm_prefix P N tb l, a_vm_value P N tb l).
-Definition mobs_t (T : tree P N) (m : vmut P) :=
-  (map (fun q => oml T (vm_find P N PEQ CON BIT LEN T m q)) qs, map (fun q => oml T (vm_find_exact P N PEQ CON BIT LEN T m q)) qs,
-   map (fun q => oml T (vm_find_lpm P N PEQ CON BIT LEN T m q)) qs, oml T (vm_left P N BIT LEN ZERO T m), oml T (vm_right P N BIT LEN ZERO T m),
-   Ok (A := bool) (vm_has_left P N BIT LEN ZERO T m), Ok (A := bool) (vm_has_right P N BIT LEN ZERO T m),
-   Ok (A := option (vloc P) * option (vloc P))
-      (let '(a, b) := vm_split P N BIT LEN ZERO T m in (option_map (mloc_of T) a, option_map (mloc_of T) b)),
-   Ok (A := P) (vm_prefix P N ZERO T m), Ok (A := option N) (vm_value T m)).
-Example viewmut_observers_ok :
-  map (fun h => map (fun m => mobs_a (tab h) (mloc_of (tre h) m)) (vmuts_of h)) hs
-  = map (fun h => map (mobs_t (tre h)) (vmuts_of h)) hs.
-Proof. vm_compute. reflexivity. Qed.
-
-(** ** the set operations, at every pair of views of the two maps (operands with different
-    roots, virtual views, value-less branching nodes, the empty map) *)
-Definition pairs (h1 h2 : list (aop2 P N)) : list (view P N * view P N) :=
-  flat_map (fun v1 => map (fun v2 => (v1, v2)) (views_of h2)) (views_of h1).
-Definition hps : list (list (aop2 P N) * list (aop2 P N)) := [(ha, hb); (hb, ha); (hr, hb); (ha, ha); (ha, hz); (hz, hb)].
-Definition on_pairs {X} (fa : list (anode P N) -> list (anode P N) -> N -> N -> X)
-           (ft : tree P N -> tree P N -> X) : list (list X) * list (list X) :=
-  (map (fun hp => map (fun vv => fa (tab (fst hp)) (tab (snd hp)) (loc_idx (loc_of (fst vv))) (loc_idx (loc_of (snd vv))))
-                      (pairs (fst hp) (snd hp))) hps,
-   map (fun hp => map (fun vv => ft (v_tree (fst vv)) (v_tree (snd vv))) (pairs (fst hp) (snd hp))) hps).
-Definition same {X} (x : X * X) : Prop := fst x = snd x.
-
-Example union_ok :
-  same (on_pairs (a_union P N N CON BIT LEN MCMP) (fun a b => lift_run (union P N N CON BIT LEN ZERO MCMP a b))).
-Proof. vm_compute. reflexivity. Qed.
-Example union_mut_ok :
-  same (on_pairs (a_union_mut P N N CON BIT LEN MCMP) (fun a b => lift_run (union_mut P N N CON BIT LEN ZERO MCMP a b))).
-Proof. vm_compute. reflexivity. Qed.
-Example intersection_ok :
-  same (on_pairs (a_intersection P N N CON BIT LEN MCMP) (fun a b => lift_run (intersection P N N CON BIT LEN ZERO MCMP a b))).
-Proof. vm_compute. reflexivity. Qed.
-Example intersection_mut_ok :
-  same (on_pairs (a_intersection_mut P N N CON BIT LEN MCMP) (fun a b => lift_run (intersection_mut P N N CON BIT LEN ZERO MCMP a b))).
-Proof. vm_compute. reflexivity. Qed.
-Example difference_ok :
-  same (on_pairs (a_difference P N N CON BIT LEN MCMP) (fun a b => lift_run (difference P N N CON BIT LEN ZERO MCMP a b))).
-Proof. vm_compute. reflexivity. Qed.
-Example difference_mut_ok :
-  same (on_pairs (a_difference_mut P N N CON BIT LEN MCMP) (fun a b => lift_run (difference_mut P N N CON BIT LEN ZERO MCMP a b))).
-Proof. vm_compute. reflexivity. Qed.
-Example covering_difference_ok :
-  same (on_pairs (a_covering_difference P N N CON BIT LEN MCMP) (fun a b => lift_run (covering_difference P N N CON BIT LEN ZERO MCMP a b))).
-Proof. vm_compute. reflexivity. Qed.
-Example covering_difference_mut_ok :
-  same (on_pairs (a_covering_difference_mut P N N CON BIT LEN MCMP) (fun a b => lift_run (covering_difference_mut P N N CON BIT LEN ZERO MCMP a b))).
-Proof. vm_compute. reflexivity. Qed.
-(** one of them spelled out: the two roots differ (10/2 of [hr], a value-less branch in slot 2,
-    against 1000/4 of [hb] in slot 3, which lies below 100/3 of [hr]) *)
-Example union_sample :
-  a_union P N N CON BIT LEN MCMP (tab hr) (tab hb) 2 3
-  = Ok [ILeft P N N (p 128 3) 1 None; IRight P N N (p 128 4) (Some (p 128 3, 1)) 14;
-        IRight P N N (p 130 7) (Some (p 128 3, 1)) 16; ILeft P N N (p 160 3) 3 None].
-Proof. vm_compute. reflexivity. Qed.
-
-(** corrupted arenas: a dangling link panics, a link cycle runs out of fuel -- in the observers as
-    in the mutators *)
-Example dangling_observers :
-  let tb := [mkanode ZERO None (Some 7) None] in
-  (a_get_spm P N PEQ CON BIT LEN (mkamap tb [] 0) (p 1 8), a_v_find P N PEQ CON BIT LEN LCP tb (LNode 0) (p 1 8),
-   a_children_start P N PEQ CON BIT LEN (mkamap tb [] 0) (p 1 8), a_union P N N CON BIT LEN MCMP tb tb 0 0)
-  = (Panic, Panic, Panic, Panic).
-Proof. vm_compute. reflexivity. Qed.
-Example cycle_observers :
-  (a_contains_key P N PEQ CON BIT LEN cyc (p 1 8), a_v_find_lpm P N PEQ CON BIT LEN (tbl cyc) (LNode 0) (p 1 8),
-   a_cover P N PEQ CON BIT LEN cyc (p 1 8), a_covering_difference P N N CON BIT LEN MCMP (tbl cyc) (tbl cyc) 0 0)
-  = (OutOfFuel, OutOfFuel, OutOfFuel, OutOfFuel).
-Proof. vm_compute. reflexivity. Qed.
-End Arena3Test.
